@@ -1940,3 +1940,155 @@ def c10_history_search(meta, seed, budget):
                 evs.append(["snap", rng.choice(names) if rng.random() < 0.3 else names[0],
                             {k: [rng.randrange(0, 4), rng.randrange(0, 4)] for k in ks}])
         yield {"events": evs}
+
+
+# ---------------------------------------------------------------------------
+# C11: generated socket tables on a fake procfs
+# ---------------------------------------------------------------------------
+
+def hex_addr(fam, ip, port):
+    import socket
+    packed = socket.inet_pton(fam, ip)
+    if fam == socket.AF_INET:
+        h = packed[::-1].hex().upper()
+    else:
+        h = b"".join(packed[i:i + 4][::-1] for i in range(0, 16, 4)).hex().upper()
+    return f"{h}:{port:04X}"
+
+
+TCP_STATES = {"01": "ESTABLISHED", "02": "SYN_SENT", "03": "SYN_RECV", "04": "FIN_WAIT1", "05": "FIN_WAIT2",
+              "06": "TIME_WAIT", "07": "CLOSE", "08": "CLOSE_WAIT", "09": "LAST_ACK", "0A": "LISTEN", "0B": "CLOSING"}
+
+KIND_TABLE = {
+    "all": {("tcp", 4), ("tcp", 6), ("udp", 4), ("udp", 6), ("unix", 0)},
+    "tcp": {("tcp", 4), ("tcp", 6)}, "tcp4": {("tcp", 4)}, "tcp6": {("tcp", 6)},
+    "udp": {("udp", 4), ("udp", 6)}, "udp4": {("udp", 4)}, "udp6": {("udp", 6)},
+    "unix": {("unix", 0)}, "inet": {("tcp", 4), ("tcp", 6), ("udp", 4), ("udp", 6)},
+    "inet4": {("tcp", 4), ("udp", 4)}, "inet6": {("tcp", 6), ("udp", 6)},
+}
+
+
+@runner("c11:sockets")
+def c11_sockets(model, meta):
+    import socket
+    import psutil
+    from psutil import _pslinux
+    socks = model["sockets"]      # dicts: proto, ver, laddr, lport, raddr, rport, st, inode, holders [(pid, fd)], path, utype
+    kind = model.get("kind", "all")
+    d = tempfile.mkdtemp(prefix="vfproc_")
+    problems = []
+    old = psutil.PROCFS_PATH
+    try:
+        os.makedirs(f"{d}/net")
+        files = {"tcp": "  sl  local_address rem_address   st tx_queue rx_queue tr tm->when retrnsmt   uid  timeout inode\n",
+                 "tcp6": "  sl  local_address                         remote_address                        st tx_queue rx_queue tr tm->when retrnsmt   uid  timeout inode\n",
+                 "udp": "  sl  local_address rem_address   st tx_queue rx_queue tr tm->when retrnsmt   uid  timeout inode ref pointer drops\n",
+                 "udp6": "  sl  local_address                         remote_address                        st tx_queue rx_queue tr tm->when retrnsmt   uid  timeout inode ref pointer drops\n",
+                 "unix": "Num       RefCount Protocol Flags    Type St Inode Path\n"}
+        pids = {1}
+        want = set()
+        for k, s in enumerate(socks):
+            holders = [tuple(h) for h in s.get("holders", [])]
+            for pid, fd in holders:
+                pids.add(pid)
+            if s["proto"] in ("tcp", "udp"):
+                fam = socket.AF_INET if s["ver"] == 4 else socket.AF_INET6
+                fn = s["proto"] + ("6" if s["ver"] == 6 else "")
+                st = s["st"] if s["proto"] == "tcp" else "07"
+                files[fn] += f"  {k}: {hex_addr(fam, s['laddr'], s['lport'])} {hex_addr(fam, s['raddr'], s['rport'])} {st} 00000000:00000000 00:00000000 00000000  1000        0 {s['inode']} 1 0000000000000000 100 0 0 10 0\n"
+                typ = socket.SOCK_STREAM if s["proto"] == "tcp" else socket.SOCK_DGRAM
+                la = (s["laddr"] if False else socket.inet_ntop(fam, socket.inet_pton(fam, s["laddr"])), s["lport"]) if s["lport"] else ()
+                ra = (socket.inet_ntop(fam, socket.inet_pton(fam, s["raddr"])), s["rport"]) if s["rport"] else ()
+                status = ("CONN_" + TCP_STATES[st]).replace("CONN_", "") if s["proto"] == "tcp" else "NONE"
+                pid, fd = holders[0] if holders else (None, -1)
+                if (s["proto"], s["ver"]) in KIND_TABLE.get(kind, set()):
+                    want.add((fd, int(fam), int(typ), la, ra, status, pid))
+            else:
+                path = s.get("path", "")
+                files["unix"] += f"0000000000000000: 00000002 00000000 00010000 {s['utype']:04d} 01 {s['inode']}" + (f" {path}" if path else "") + "\n"
+                if ("unix", 0) in KIND_TABLE.get(kind, set()):
+                    for pid, fd in (holders or [(None, -1)]):
+                        want.add((fd, int(socket.AF_UNIX), s["utype"], path, "", "NONE", pid))
+        for fn, txt in files.items():
+            open(f"{d}/net/{fn}", "w").write(txt)
+        open(f"{d}/stat", "w").write("cpu  1 2 3 4 5 6 7 8 9 10\nbtime 1700000000\n")
+        for pid in pids:
+            os.makedirs(f"{d}/{pid}/fd")
+            open(f"{d}/{pid}/stat", "wb").write(_stat_with_start(pid, 50 + pid))
+            os.symlink("/dev/null", f"{d}/{pid}/fd/0")
+        for s in socks:
+            for pid, fd in s.get("holders", []):
+                os.symlink(f"socket:[{s['inode']}]", f"{d}/{pid}/fd/{fd}")
+        psutil.PROCFS_PATH = d
+        try:
+            got = psutil.net_connections(kind)
+            gotset = {(c.fd, int(c.family), int(c.type), tuple(c.laddr) if c.laddr != () and not isinstance(c.laddr, str) else c.laddr,
+                       tuple(c.raddr) if c.raddr != () and not isinstance(c.raddr, str) else c.raddr,
+                       str(c.status), c.pid) for c in got}
+            if len(got) != len(gotset):
+                problems.append("a socket is listed twice")
+            if gotset != want:
+                problems.append(f"net_connections({kind!r}): unexpected {sorted(gotset - want, key=str)[:2]} missing {sorted(want - gotset, key=str)[:2]}")
+            # per-process form: only that process's sockets
+            for pid in sorted(pids - {1})[:2]:
+                pg = psutil.Process(pid).net_connections(kind)
+                pset = {(c.fd, int(c.family), int(c.type), tuple(c.laddr) if not isinstance(c.laddr, str) else c.laddr,
+                         tuple(c.raddr) if not isinstance(c.raddr, str) else c.raddr, str(c.status)) for c in pg}
+                pw = {w[:6] for w in want if w[6] == pid}
+                if pset != pw:
+                    problems.append(f"Process({pid}).net_connections({kind!r}): unexpected {sorted(pset - pw, key=str)[:2]} "
+                                    f"missing {sorted(pw - pset, key=str)[:2]}")
+        except Exception as e:  # noqa: BLE001
+            import traceback
+            problems.append("raised " + traceback.format_exc()[-400:])
+    finally:
+        psutil.PROCFS_PATH = old
+        shutil.rmtree(d, ignore_errors=True)
+    tag = None
+    if problems and all("missing" in p or "unexpected" in p for p in problems) and any(" " in s.get("path", "") for s in socks):
+        tag = None
+    return {"env": {}, "result": problems[:3], "exc": None, "verdict": bool(problems), "kind": kind, "tag": tag}
+
+
+@search("c11:sockets")
+def c11_sockets_search(meta, seed, budget):
+    import random
+    import socket
+    rng = random.Random(seed)
+    v4 = ["0.0.0.0", "127.0.0.1", "10.0.0.5", "255.255.255.255", "192.168.1.77", "1.2.3.4"]
+    v6 = ["::", "::1", "::ffff:127.0.0.1", "fe80::1ff:fe23:4567:890a", "2001:db8::8a2e:370:7334", "ff02::1"]
+    paths = ["", "/run/x.sock", "@abstract", "/tmp/my sock dir/s k", "/a:b", "@a b"]
+    kinds = list(KIND_TABLE)
+    corpus = [
+        {"sockets": [{"proto": "unix", "inode": 1001, "holders": [[200, 3], [200, 4]], "path": "/a", "utype": 1},
+                     {"proto": "unix", "inode": 1002, "holders": [[200, 5]], "path": "/b", "utype": 1}], "kind": "unix"},
+        {"sockets": [{"proto": "unix", "inode": 1001, "holders": [[200, 3], [300, 4], [200, 9]], "path": "@x", "utype": 2},
+                     {"proto": "unix", "inode": 1002, "holders": [[300, 5]], "path": "", "utype": 5},
+                     {"proto": "unix", "inode": 1003, "holders": [[200, 6]], "path": "/c d", "utype": 1}], "kind": "all"},
+        {"sockets": [{"proto": "tcp", "ver": 4, "laddr": "0.0.0.0", "lport": 22, "raddr": "0.0.0.0", "rport": 0, "st": "0A",
+                      "inode": 1001, "holders": [[200, 3]]},
+                     {"proto": "unix", "inode": 1002, "holders": [[200, 4], [200, 5]], "path": "/a", "utype": 1},
+                     {"proto": "unix", "inode": 1003, "holders": [[200, 6]], "path": "/b", "utype": 1}], "kind": "all"},
+    ]
+    for c in corpus:
+        yield c
+    for n in range(budget):
+        socks = []
+        inode = 1000
+        for _ in range(rng.randrange(0, 6)):
+            inode += rng.randrange(1, 50)
+            proto = rng.choice(["tcp", "tcp", "udp", "unix"])
+            holders = [(rng.choice([200, 200, 300]), rng.randrange(3, 20)) for _ in range(rng.choice([0, 1, 1, 2, 3]))]
+            holders = list(dict.fromkeys(holders))
+            if proto != "unix":
+                holders = holders[:1]     # which holder an inet socket shared by several fds is attributed to is unspecified
+            if proto == "unix":
+                socks.append({"proto": "unix", "inode": inode, "holders": holders, "path": rng.choice(paths),
+                              "utype": rng.choice([1, 2, 5])})
+            else:
+                ver = rng.choice([4, 6])
+                pool = v4 if ver == 4 else v6
+                socks.append({"proto": proto, "ver": ver, "laddr": rng.choice(pool), "lport": rng.choice([0, 22, 65535, rng.randrange(1, 65536)]),
+                              "raddr": rng.choice(pool), "rport": rng.choice([0, 0, 443, rng.randrange(1, 65536)]),
+                              "st": rng.choice(list(TCP_STATES)), "inode": inode, "holders": holders})
+        yield {"sockets": socks, "kind": kinds[n % len(kinds)]}
